@@ -119,6 +119,40 @@ class C06(props.Prop):
         v.probes['observations_torn'] += bad
         return bad
 
+    def check_written_before_waiting(self, res, v):
+        """Once main has adopted a result (in the parallel paths it raises the
+        abort flag at that moment) the output file must be brought up to date
+        before main goes back to waiting for other processes: otherwise the
+        file is stale for as long as the checks in flight take, and an
+        interrupt there loses the accepted input."""
+        rec = res.rec
+        done_at = sorted(w['seq1'] for w in rec.writes
+                         if w.get('seq1') is not None)
+        pending = None
+        for i, e in enumerate(res.log):
+            if e[0] != 'main' or len(e) < 2:
+                continue
+            if e[1] == 'ev.set':
+                if pending is None:
+                    pending = i
+            elif e[1] in ('job.next', 'pool.join') and pending is not None:
+                if any(pending < s <= i + 1 for s in done_at):
+                    pending = None
+                    continue
+                v.violate(
+                    'stale-while-waiting',
+                    'C06:adopted-input-not-written-before-waiting',
+                    'main adopted an accepted input (abort flag raised) and '
+                    'went back to waiting for running checks without having '
+                    'written it to the output file: the file is stale (or '
+                    'missing) for the duration of those checks and an '
+                    'interrupt there does not leave the last accepted input',
+                    point=None, adoption_event=pending, wait_event=i)
+                return
+            if pending is not None and any(pending < s <= i + 1
+                                           for s in done_at):
+                pending = None
+
     def run(self, case):
         spec = case['runs'][0]
         v = props.Verdict()
@@ -148,6 +182,7 @@ class C06(props.Prop):
             v.violate('tmpdir-left', 'C06:tmpdir-left:normal-exit',
                       f'temporary directory left after exit: '
                       f'{res.tmp_left_after_exit}')
+        self.check_written_before_waiting(res, v)
         n_main = rec.main_nyield
         windows = [(a, b) for a, b in rec.rewrite_windows if b is not None]
         inside = list(rec.points_in_rewrite)
